@@ -142,15 +142,19 @@ class Report:
             f = self._known[key]
             lines.append(f"KNOWN-FINDING: property={ctx.prop} {key}: {f['description']} ({hit['count']} cases this run)")
         bykey: dict[str, int] = {}
+        def gkey(v):
+            w = v["detail"].get("what") if isinstance(v.get("detail"), dict) else None
+            return str(v["key"]) if v["key"] is not None else f"None|{w}"
+
         for v in self.violations:
-            bykey[str(v["key"])] = bykey.get(str(v["key"]), 0) + 1
+            bykey[gkey(v)] = bykey.get(gkey(v), 0) + 1
         if bykey:
             lines.append(f"violations by finding key: {json.dumps(bykey, sort_keys=True)}")
         seen = set()
         seen_keys: dict[str, int] = {}
-        for v in sorted(self.violations, key=lambda v: str(v["key"])):
-            seen_keys[str(v["key"])] = seen_keys.get(str(v["key"]), 0) + 1
-            if seen_keys[str(v["key"])] > 3:
+        for v in sorted(self.violations, key=gkey):
+            seen_keys[gkey(v)] = seen_keys.get(gkey(v), 0) + 1
+            if seen_keys[gkey(v)] > 3:
                 continue
             blob = json.dumps({"property": ctx.prop, **v}, sort_keys=True, default=str)
             h = hashlib.sha1(blob.encode()).hexdigest()[:12]
